@@ -7,7 +7,11 @@ package main
 // Universe: bases 0..4 are declared symbols N0..N4 of file "p.go" (two file versions 1, 2);
 // base 5 = primitive string, 6 = primitive int, 7 = special error (universe), 8 = special
 // time.Time (non-universe built-in); built-in keys carry version 0.
-// Edge kinds: 0 = ty, 1 = ref, 2 = fld, 3 = val.
+// Edge kinds: 0 = ty, 1 = ref, 2 = fld, 3 = val, 4.. = every other SymbolEdgeKind constant declared
+// in graphs/symboldg (the check reads the names from the source tree under test and sends them as
+// "kinds"; SymbolEdgeKind is a string type).
+// Per history the check also sends the edge-kind filters to traverse with ("filters"): after each
+// op Children/Parents/Descendants are asked through every filter, unsorted and sorted.
 // Node kinds: 0 Struct, 1 Field, 2 Enum, 3 Alias, 4 Constant, 5 Builtin, 6 Special.
 //
 // The adjacency indices deps/revDeps are not observable through the public interface; they are
@@ -57,9 +61,19 @@ type gObs struct {
 	Deps   [][3]int  `json:"deps"`   // dump: from base, to base, to version
 	Rev    [][3]int  `json:"rev"`    // dump: to base, from base, from version
 	Dump   bool      `json:"dump"`   // adjacency dump available
-	Flags  [4]bool   `json:"flags"`  // version-independent key queries; Exists == (Get != nil); kind-filtered GetEdges == filter of unfiltered; sorted Children/Parents are the unsorted answers ordered by ordinal
+	Filt   []gFRow   `json:"filt"`   // answers through an edge-kind filter (rows with a non-empty answer)
+	Flags  [6]bool   `json:"flags"`  // version-independent key queries; Exists == (Get != nil); kind-filtered GetEdges == filter of unfiltered; sorted Children/Parents return the nodes of the unsorted answers; [4] sorted Children/Parents (no filter and every filter, asc and desc) are ordered by the ordinals GetEdges lists; [5] node-kind-filtered Children/Parents == the plain answers restricted to that node kind
 	Nondet bool      `json:"nondet"` // a repetition of the same history gave a different observation
 	Msg    string    `json:"msg,omitempty"`
+}
+
+// gFRow: Children/Parents/Descendants of base B through the edge-kind filter Ks (kind numbers)
+type gFRow struct {
+	B  int   `json:"b"`
+	Ks []int `json:"ks"`
+	Ch []int `json:"ch"`
+	Pa []int `json:"pa"`
+	De []int `json:"de"`
 }
 
 const (
@@ -72,6 +86,7 @@ var gNodeKinds = []common.SymKind{common.SymKindStruct, common.SymKindField, com
 	common.SymKindConstant, common.SymKindBuiltin, common.SymKindSpecialBuiltin}
 
 type gUniverse struct {
+	filters  [][]int // edge-kind filters of the history being executed
 	idents   [gNDeclared]*ast.Ident
 	versions [3]*gast.FileVersion
 	byKey    map[graphs.SymbolKey]gKey
@@ -303,8 +318,8 @@ func (u *gUniverse) adjList(m map[string]map[graphs.SymbolKey]struct{}) [][3]int
 }
 
 func (u *gUniverse) observe(g *symboldg.SymbolGraph) gObs {
-	o := gObs{Nodes: [][4]int{}, Edges: [][]int{}, Ch: [][]int{}, Pa: [][]int{}, De: [][]int{}, Fbk: [][]int{},
-		Flags: [4]bool{true, true, true, true}}
+	o := gObs{Nodes: [][4]int{}, Edges: [][]int{}, Ch: [][]int{}, Pa: [][]int{}, De: [][]int{}, Fbk: [][]int{}, Filt: []gFRow{},
+		Flags: [6]bool{true, true, true, true, true, true}}
 	asc := &symboldg.TraversalBehavior{Sorting: symboldg.TraversalSortingOrdinalAsc}
 	for b := 0; b < gNBases; b++ {
 		vers := []int{0}
@@ -359,6 +374,7 @@ func (u *gUniverse) observe(g *symboldg.SymbolGraph) gObs {
 			!reflect.DeepEqual(sortedInts(pa), sortedInts(u.nodeBases(g.Parents(firstNode, asc)))) {
 			o.Flags[3] = false
 		}
+		u.observeFiltered(g, &o, b, firstNode, first, ch, pa)
 		o.Ch = append(o.Ch, append([]int{b}, sortedInts(ch)...))
 		o.Pa = append(o.Pa, append([]int{b}, sortedInts(pa)...))
 		o.De = append(o.De, append([]int{b}, sortedInts(de)...))
@@ -379,6 +395,115 @@ func (u *gUniverse) observe(g *symboldg.SymbolGraph) gObs {
 	return o
 }
 
+func squeeze(a []int) []int {
+	out := []int{}
+	for i, x := range a {
+		if i == 0 || a[i-1] != x {
+			out = append(out, x)
+		}
+	}
+	return out
+}
+
+// the order in which a sorted traversal must list the nodes: the edges GetEdges(key, nil) lists for base b
+// (`el`), outgoing (children) or incoming (parents), of a kind the filter admits, whose other end exists,
+// by ordinal.  Runs of the same node are squeezed (Parents lists an edge once per version under which
+// the parent is registered in revDeps).
+func (u *gUniverse) wantOrder(g *symboldg.SymbolGraph, el [][6]int, b int, ks []int, children, desc bool) []int {
+	type it struct{ ord, base int }
+	var its []it
+	for _, e := range el {
+		self, other := e[0], e[2]
+		if !children {
+			self, other = e[2], e[0]
+		}
+		if self != b {
+			continue
+		}
+		if ks != nil {
+			hit := false
+			for _, k := range ks {
+				hit = hit || k == e[4]
+			}
+			if !hit {
+				continue
+			}
+		}
+		v := 0
+		if other < gNDeclared {
+			v = 1
+		}
+		if !g.Exists(u.key(gKey{other, v})) {
+			continue
+		}
+		its = append(its, it{e[5], other})
+	}
+	sort.Slice(its, func(i, j int) bool {
+		if desc {
+			return its[i].ord > its[j].ord
+		}
+		return its[i].ord < its[j].ord
+	})
+	out := make([]int, len(its))
+	for i, x := range its {
+		out[i] = x.base
+	}
+	return squeeze(out)
+}
+
+func sameSet(a, b []int) bool {
+	return reflect.DeepEqual(squeeze(sortedInts(a)), squeeze(sortedInts(b)))
+}
+
+// traversals of one existing node through behaviours: every edge-kind filter of the history (recorded in
+// o.Filt for the oracle), the sorted variants (flags 3, 4) and node-kind filters (flag 5)
+func (u *gUniverse) observeFiltered(g *symboldg.SymbolGraph, o *gObs, b int, node *symboldg.SymbolNode, el [][6]int, ch, pa []int) {
+	sortings := []symboldg.TraversalResultSorting{symboldg.TraversalSortingOrdinalAsc, symboldg.TraversalSortingOrdinalDesc}
+	checkSorted := func(ks []int, kinds []symboldg.SymbolEdgeKind, fch, fpa []int) {
+		for _, srt := range sortings {
+			bh := &symboldg.TraversalBehavior{Filtering: symboldg.TraversalFilter{EdgeKinds: kinds}, Sorting: srt}
+			sch, spa := u.nodeBases(g.Children(node, bh)), u.nodeBases(g.Parents(node, bh))
+			if !sameSet(sch, fch) || !sameSet(spa, fpa) {
+				o.Flags[3] = false
+			}
+			desc := srt == symboldg.TraversalSortingOrdinalDesc
+			if !reflect.DeepEqual(squeeze(sch), u.wantOrder(g, el, b, ks, true, desc)) ||
+				!reflect.DeepEqual(squeeze(spa), u.wantOrder(g, el, b, ks, false, desc)) {
+				o.Flags[4] = false
+			}
+		}
+	}
+	checkSorted(nil, nil, ch, pa)
+	for _, ks := range u.filters {
+		kinds := make([]symboldg.SymbolEdgeKind, len(ks))
+		for i, k := range ks {
+			kinds[i] = gEdgeKinds[k]
+		}
+		bh := &symboldg.TraversalBehavior{Filtering: symboldg.TraversalFilter{EdgeKinds: kinds}}
+		fch, fpa, fde := u.nodeBases(g.Children(node, bh)), u.nodeBases(g.Parents(node, bh)), u.nodeBases(g.Descendants(node, bh))
+		checkSorted(ks, kinds, fch, fpa)
+		if len(fch)+len(fpa)+len(fde) > 0 {
+			o.Filt = append(o.Filt, gFRow{B: b, Ks: ks, Ch: sortedInts(fch), Pa: sortedInts(fpa), De: sortedInts(fde)})
+		}
+	}
+	for _, nk := range gNodeKinds {
+		bh := &symboldg.TraversalBehavior{Filtering: symboldg.TraversalFilter{NodeKinds: []common.SymKind{nk}}}
+		pick := func(ns []*symboldg.SymbolNode) []int {
+			out := []int{}
+			for _, n := range ns {
+				if n != nil && n.Kind == nk {
+					out = append(out, u.unkey(n.Id)[0])
+				}
+			}
+			return sortedInts(out)
+		}
+		if !reflect.DeepEqual(sortedInts(u.nodeBases(g.Children(node, bh))), pick(g.Children(node, nil))) ||
+			!sameSet(u.nodeBases(g.Parents(node, bh)), pick(g.Parents(node, nil))) {
+			o.Flags[5] = false
+		}
+	}
+}
+
 func (u *gUniverse) runHistory(h []gOp) []gObs {
 	g := symboldg.NewSymbolGraph()
 	out := make([]gObs, 0, len(h))
@@ -392,8 +517,10 @@ func (u *gUniverse) runHistory(h []gOp) []gObs {
 }
 
 type gInput struct {
-	Reps      int      `json:"reps"`
-	Histories [][]gOp  `json:"histories"`
+	Reps      int       `json:"reps"`
+	Histories [][]gOp   `json:"histories"`
+	Kinds     []string  `json:"kinds,omitempty"`   // edge kind names, position = kind number (default: ty ref fld val)
+	Filters   [][][]int `json:"filters,omitempty"` // per history: the edge-kind filters to traverse with
 }
 
 func init() {
@@ -403,8 +530,23 @@ func init() {
 			return err
 		}
 		u := newGUniverse()
+		if len(inp.Kinds) > 0 {
+			gEdgeKinds = make([]symboldg.SymbolEdgeKind, len(inp.Kinds))
+			for i, k := range inp.Kinds {
+				gEdgeKinds[i] = symboldg.SymbolEdgeKind(k)
+			}
+		}
 		results := make([][]gObs, 0, len(inp.Histories))
-		for _, h := range inp.Histories {
+		for hi, h := range inp.Histories {
+			u.filters = nil
+			if hi < len(inp.Filters) {
+				u.filters = inp.Filters[hi]
+			}
+			for _, op := range h {
+				if op.Kind != nil && (*op.Kind < 0 || *op.Kind >= len(gEdgeKinds)) {
+					return fmt.Errorf("history %d: edge kind %d out of range", hi, *op.Kind)
+				}
+			}
 			obs := u.runHistory(h)
 			for r := 1; r < inp.Reps; r++ {
 				again := u.runHistory(h)
